@@ -141,6 +141,79 @@ def make_big_job(chk, rng, i):
     return {"case": case, "configs": configs, "inputs": inputs, "features": ["big_trie"]}
 
 
+def make_wide_job(chk, rng, i):
+    """Token classes that each allow a slightly different, wide set of characters: many DFA states
+    with large, similar but unequal transition rows.  Without equivalence classes (-C, -Cm) a
+    handful of them fills tblcmp.c's queue of prototype rows, so rows are recycled while still
+    in use as the best match."""
+    p = gen.default_profile()
+    p["nrules"] = (1, 1)
+    g, case = tokens.base_case(chk, rng, p)
+    case["defs"] = []
+    pools = [[("r", 97, 122)], [("r", 65, 90)], [("r", 48, 57)], [("r", 97, 102), ("r", 65, 70)]]
+    singles = b"_.:-+~"
+
+    def wide():
+        items = []
+        for pool in rng.sample(pools, rng.rint(2, 3)):
+            items += pool
+        for c in rng.sample(list(singles), rng.rint(0, 2)):
+            items.append(("c", c))
+        return ("ccl", False, items)
+    rules = []
+    sigils = rng.sample(list(b"@/?\\<#$%&!"), rng.rint(5, 9))
+
+    def members(node):
+        out = set()
+        for it in node[2]:
+            out |= set(range(it[1], it[2] + 1)) if it[0] == "r" else {it[1]}
+        return out
+
+    def subset(node, drop):
+        m = sorted(members(node))
+        keep = [c for c in m if not (c in drop)]
+        return ("ccl", False, [("c", c) for c in keep]) if keep else node
+    for sg in sigils:
+        # nested classes (first < last < middle), as in host names, paths, identifiers: the states
+        # of one rule then have rows that agree on most characters and differ on some
+        mid = wide()
+        mm = sorted(members(mid))
+        d1 = set(rng.sample(mm, max(1, len(mm) // rng.choice([3, 4, 6]))))
+        last = subset(mid, d1)
+        d2 = d1 | set(rng.sample(mm, max(1, len(mm) // rng.choice([3, 5]))))
+        first = subset(mid, d2)
+        shape = rng.below(4)
+        if shape == 0:
+            parts = [("chr", sg), first, ("star", mid), last]
+        elif shape == 1:
+            parts = [("chr", sg), ("plus", mid), ("plus", last)]
+        elif shape == 2:
+            parts = [("chr", sg), ("plus", first), ("star", last), ("star", mid), first]
+        else:
+            parts = [("chr", sg), first, ("star", mid), ("chr", rng.choice(b">;")) ]
+        rules.append({"scs": None, "bol": False, "pat": ("cat", parts), "trail": None, "act": []})
+    rules.append({"scs": None, "bol": False, "pat": ("plus", ("ccl", False, [("r", 97, 122), ("r", 65, 90)])),
+                  "trail": None, "act": []})
+    rules.append({"scs": None, "bol": False, "pat": ("plus", ("ccl", False, [("r", 48, 57)])),
+                  "trail": None, "act": []})
+    case["rules"] = rules
+    ctx = gen.ctx_of(case)
+    inputs = []
+    for k in range(5):
+        toks = []
+        for _ in range(30):
+            sg = bytes([rng.choice(sigils)]) if rng.chance(80) else b""
+            body = bytes(rng.choice(b"abcxyzABCXYZ0189_.:-+~fF") for _ in range(rng.rint(1, 7)))
+            toks.append(sg + body)
+        inputs.append({"sources": [b" ".join(toks) + b"\n" + g.make_input(case, ctx, maxlen=60)], "sched": [0]})
+    configs = []
+    for j, tb in enumerate(["-Cm", "-C", "-Ca", "-Cma", "-Cem", "-Cf"]):
+        configs.append({"flavour": ["nr", "r", "c99"][(i + j) % 3], "flexargs": (tb,) + (("-8",) if "f" in tb else ()),
+                        "opts": {"bits": 8}, "_tb": tb})
+    case["budget"] = {"events": 4000}
+    return {"case": case, "configs": configs, "inputs": inputs, "features": ["wide_similar_rows"]}
+
+
 # --------------------------------------------------------------------------- part B
 BASE = "%%option noyywrap\n%s\n%%%%\n%s\n%%%%\nint main(void) { return 0; }\n"
 RULES_PLAIN = "ab   { return 1; }\n.|\\n { return 2; }"
@@ -233,13 +306,15 @@ def run(pid, tier):
     n = 16 if tier == "quick" else 200
     lib.explore(chk, range(n), make_job)
     lib.explore(chk, range(1000, 1000 + (2 if tier == "quick" else 12)), make_big_job)
+    lib.explore(chk, range(2000, 2000 + (4 if tier == "quick" else 40)), make_wide_job)
     refusal_checks(chk)
     for t in TABLES:
         chk.require("tables:" + t)
     for fl in FLAVS:
         chk.require("flavour:" + fl)
     for k in ("align", "bits:7", "bits:8", "interactive:True", "interactive:False", "array:True",
-              "array:False", "cli:True", "cli:False", "reject", "yymore", "trail_fire", "big_trie"):
+              "array:False", "cli:True", "cli:False", "reject", "yymore", "trail_fire", "big_trie",
+              "wide_similar_rows"):
         chk.require(k)
     chk.require("refusal_ok", 15)
     chk.require("override_ok", 1)
